@@ -88,45 +88,17 @@ fn mpo_body<const NA: usize, const NB: usize, const NR: usize>() {
 //# {"id":"c13_mpo_3_3","props":["C13"],"tier":"thorough","cap":3600,"bound":"T = newtype over u8, duplicate-free lists of length 3 and 3 over 4 values; unwind 8","z":["stubbing"],"fns":["merge_preserve_order::<E(u8)>"]}
 proofs! {
 	#[cfg_attr(kani, kani::unwind(4))]
-	#[cfg_attr(kani, kani::stub(std::alloc::alloc, crate::hstubs::alloc_stub))]
-	#[cfg_attr(kani, kani::stub(std::alloc::alloc_zeroed, crate::hstubs::alloc_zeroed_stub))]
-	#[cfg_attr(kani, kani::stub(std::alloc::realloc, crate::hstubs::realloc_stub))]
-	#[cfg_attr(kani, kani::stub(std::alloc::dealloc, crate::hstubs::dealloc_stub))]
 	fn c13_mpo_1_1() { mpo_body::<1, 1, 2>(); }
 	#[cfg_attr(kani, kani::unwind(5))]
-	#[cfg_attr(kani, kani::stub(std::alloc::alloc, crate::hstubs::alloc_stub))]
-	#[cfg_attr(kani, kani::stub(std::alloc::alloc_zeroed, crate::hstubs::alloc_zeroed_stub))]
-	#[cfg_attr(kani, kani::stub(std::alloc::realloc, crate::hstubs::realloc_stub))]
-	#[cfg_attr(kani, kani::stub(std::alloc::dealloc, crate::hstubs::dealloc_stub))]
 	fn c13_mpo_1_2() { mpo_body::<1, 2, 3>(); }
 	#[cfg_attr(kani, kani::unwind(5))]
-	#[cfg_attr(kani, kani::stub(std::alloc::alloc, crate::hstubs::alloc_stub))]
-	#[cfg_attr(kani, kani::stub(std::alloc::alloc_zeroed, crate::hstubs::alloc_zeroed_stub))]
-	#[cfg_attr(kani, kani::stub(std::alloc::realloc, crate::hstubs::realloc_stub))]
-	#[cfg_attr(kani, kani::stub(std::alloc::dealloc, crate::hstubs::dealloc_stub))]
 	fn c13_mpo_2_1() { mpo_body::<2, 1, 3>(); }
 	#[cfg_attr(kani, kani::unwind(6))]
-	#[cfg_attr(kani, kani::stub(std::alloc::alloc, crate::hstubs::alloc_stub))]
-	#[cfg_attr(kani, kani::stub(std::alloc::alloc_zeroed, crate::hstubs::alloc_zeroed_stub))]
-	#[cfg_attr(kani, kani::stub(std::alloc::realloc, crate::hstubs::realloc_stub))]
-	#[cfg_attr(kani, kani::stub(std::alloc::dealloc, crate::hstubs::dealloc_stub))]
 	fn c13_mpo_2_2() { mpo_body::<2, 2, 4>(); }
 	#[cfg_attr(kani, kani::unwind(7))]
-	#[cfg_attr(kani, kani::stub(std::alloc::alloc, crate::hstubs::alloc_stub))]
-	#[cfg_attr(kani, kani::stub(std::alloc::alloc_zeroed, crate::hstubs::alloc_zeroed_stub))]
-	#[cfg_attr(kani, kani::stub(std::alloc::realloc, crate::hstubs::realloc_stub))]
-	#[cfg_attr(kani, kani::stub(std::alloc::dealloc, crate::hstubs::dealloc_stub))]
 	fn c13_mpo_3_2() { mpo_body::<3, 2, 5>(); }
 	#[cfg_attr(kani, kani::unwind(7))]
-	#[cfg_attr(kani, kani::stub(std::alloc::alloc, crate::hstubs::alloc_stub))]
-	#[cfg_attr(kani, kani::stub(std::alloc::alloc_zeroed, crate::hstubs::alloc_zeroed_stub))]
-	#[cfg_attr(kani, kani::stub(std::alloc::realloc, crate::hstubs::realloc_stub))]
-	#[cfg_attr(kani, kani::stub(std::alloc::dealloc, crate::hstubs::dealloc_stub))]
 	fn c13_mpo_2_3() { mpo_body::<2, 3, 5>(); }
 	#[cfg_attr(kani, kani::unwind(8))]
-	#[cfg_attr(kani, kani::stub(std::alloc::alloc, crate::hstubs::alloc_stub))]
-	#[cfg_attr(kani, kani::stub(std::alloc::alloc_zeroed, crate::hstubs::alloc_zeroed_stub))]
-	#[cfg_attr(kani, kani::stub(std::alloc::realloc, crate::hstubs::realloc_stub))]
-	#[cfg_attr(kani, kani::stub(std::alloc::dealloc, crate::hstubs::dealloc_stub))]
 	fn c13_mpo_3_3() { mpo_body::<3, 3, 6>(); }
 }
